@@ -105,6 +105,15 @@ RootOverSub ==
    slots |-> <<Slot("mid", <<"a">>, <<Abs, Sc("s:m"), Sc("n:1")>>), Slot("user", <<"mid", "a">>, <<Abs, Sc("s:u"), Sc("n:2")>>),
                Slot("user", <<"mid", "c">>, <<Abs, Sc("n:1")>>), Slot("user", <<"mid", "en">>, OnOff)>>]
 
+\* an override INSIDE a table whose sibling key comes from the chart's values.yaml: the schema requires both
+\* keys (and closes the table); every entry point must judge the MERGED table (values.yaml a.k + override a.j)
+NestedOverride ==
+  [name |-> "no", fixed |-> Own \o <<Fix("root", <<"a", "k">>, "s:repo")>>,
+   charts |-> Tree(<<C("type", <<"a">>, <<"object">>), C("required", <<"a">>, <<"k", "j">>), C("closed", <<"a">>, <<"k", "j">>),
+                     C("type", <<"a", "j">>, <<"string">>)>>, <<>>, <<>>, FALSE),
+   slots |-> <<Slot("set", <<"a", "j">>, <<Abs, Sc("s:v2")>>), Slot("user", <<"a", "j">>, <<Abs, Sc("s:v1"), Sc("n:1")>>),
+               Slot("user", <<"a", "x">>, <<Abs, Sc("s:extra")>>)>>]
+
 \* the same chart under two aliases: the error names the alias whose values violate the schema, not the chart
 AliasSchema ==
   [name |-> "as", fixed |-> Own,
@@ -129,10 +138,10 @@ WithCrds ==
 QuickShapes == Form3("ty", FType, "a", FALSE) \o Form3("in", FInt, "a", FALSE) \o Form3("rq", FReq, "a", FALSE)
                \o Form3("en", FEnum, "a", FALSE) \o Form3("rg", FRange, "a", FALSE) \o Form3("ne", FNested, "a", FALSE)
                \o Form3("bx", FBigMax, "a", FALSE) \o BigMinRoot(FALSE)
-               \o Form3("ci", FClosedIn, "a", FALSE) \o ClosedShapes(FALSE) \o <<Both, RootOverSub, AliasSchema, EmptyVals>> \o WithCrds
+               \o Form3("ci", FClosedIn, "a", FALSE) \o ClosedShapes(FALSE) \o <<Both, RootOverSub, NestedOverride, AliasSchema, EmptyVals>> \o WithCrds
 
 ThoroughShapes == Form3("ty", FType, "a", TRUE) \o Form3("in", FInt, "a", TRUE) \o Form3("rq", FReq, "a", TRUE)
                \o Form3("en", FEnum, "a", TRUE) \o Form3("rg", FRange, "a", TRUE) \o Form3("ne", FNested, "a", TRUE)
                \o Form3("bx", FBigMax, "a", TRUE) \o BigMinRoot(TRUE)
-               \o Form3("ci", FClosedIn, "a", TRUE) \o ClosedShapes(TRUE) \o <<Both, RootOverSub, AliasSchema, EmptyVals>> \o WithCrds
+               \o Form3("ci", FClosedIn, "a", TRUE) \o ClosedShapes(TRUE) \o <<Both, RootOverSub, NestedOverride, AliasSchema, EmptyVals>> \o WithCrds
 =============================================================================
